@@ -373,6 +373,40 @@ class SymEval:
                 return ('v', {'k': 'unreachable'})
             a = m['arms'][i]
             pat = a['pat']
+            s_t = strip(scrut)
+            if isinstance(s_t, dict) and s_t.get('k') == 'tup' and pat.get('k') == 'ptuple' and \
+                    len(pat.get('pats', [])) == len(s_t.get('es', [])) and 'guard' not in a:
+                # `match (a, b) { (true, _) => .., (false, true) => .., .. }`: a test of the boolean components
+                tests = []
+                okp = True
+                for q, el in zip(pat['pats'], s_t['es']):
+                    if q.get('k') == 'wild':
+                        continue
+                    lit = q.get('e') if q.get('k') == 'pexpr' else q
+                    if isinstance(lit, dict) and lit.get('k') == 'lit' and lit.get('t') == 'bool':
+                        tests.append((el, bool(lit['v'])))
+                    else:
+                        okp = False
+                if okp:
+                    rest = None
+
+                    def nxt():
+                        nonlocal rest
+                        if rest is None:
+                            rest = arms(i + 1)
+                        return rest
+
+                    def build(j):
+                        if j >= len(tests):
+                            return kbody(a['body'], env)
+                        el, want = tests[j]
+                        c = ('e', el)
+                        return ('ite', c, build(j + 1), nxt()) if want else ('ite', c, nxt(), build(j + 1))
+                    if not tests:
+                        return kbody(a['body'], env)
+                    if i == len(m['arms']) - 1:
+                        return kbody(a['body'], env)      # exhaustive: the last arm takes what is left
+                    return build(0)
             st, binds = self.static_pat(pat, scrut)
             if st is False:
                 return arms(i + 1)
